@@ -180,3 +180,16 @@ case("C12", "labels-exchanged", "VIOLATION", [(FI, "hits_['strand'] = ['+'] * le
 case("C12", "race-shared-slot", "VIOLATION", [(FI, "\t\t\t\t\thits[k].append((numpy.int64(l), i, i+n, score, ", "\t\t\t\t\thits[0].append((numpy.int64(l), i, i+n, score, ")], "R-RACE")
 case("C12", "sentinel-default-zero", "VIOLATION", [(FI, "one_hot_mapping = numpy.zeros(256, dtype=numpy.int8) - 1", "one_hot_mapping = numpy.zeros(256, dtype=numpy.int8)")], "R-TABLE")
 case("C12", "kernel-no-skip", "VIOLATION", [(FI, "\t\t\t\t\tif idx == -1:\n\t\t\t\t\t\tcontinue\n", "")], "R-TABLE")
+
+# ------------------------------------------------------------------ C15
+UT = "tangermeme/utils.py"
+prefix("C15", "D10-prefix-single-chunk", UT, "55e33eb", "R-LEN", "utils.unchunk")
+case("C15", "unchunk-e-can-be-zero", "VIOLATION", [(UT, "\t\t\ts = overlap // 2\n\t\t\te = -(overlap - s)", "\t\t\te = -(overlap // 2)\n\t\t\ts = overlap + e")], None, "utils.unchunk")
+case("C15", "unchunk-two-chunk-double-trim", "VIOLATION", [(UT, "X_ = torch.cat([X_[0, ..., :e], X_[1, ..., s:]], dim=-1)", "X_ = torch.cat([X_[0, ..., :e], X_[1, ..., s - e:]], dim=-1)")], "R-LEN")
+case("C15", "unchunk-e-equiv-spelling", "HOLDS", [(UT, "\t\t\te = -(overlap - s)", "\t\t\te = s - overlap")])
+case("C15", "ohe-illegal-equals-ignore", "VIOLATION", [(UT, "one_hot_mapping = numpy.zeros(256, dtype=numpy.int8) - 2", "one_hot_mapping = numpy.zeros(256, dtype=numpy.int8) - 1")], "R-TABLE")
+case("C15", "ohe-reader-swapped", "VIOLATION", [(UT, "\t\tif idx == -1:\n\t\t\tcontinue\n\n\t\tif idx == -2:", "\t\tif idx == -2:\n\t\t\tcontinue\n\n\t\tif idx == -1:")], "R-TABLE")
+case("C15", "rc-map-not-involutive", "VIOLATION", [(UT, "complement_map={\"A\": \"T\", \"C\": \"G\", \"G\": \"C\", \n\t\"T\": \"A\"}", "complement_map={\"A\": \"T\", \"C\": \"G\", \"G\": \"A\", \n\t\"T\": \"C\"}")], "RC")
+case("C15", "rc-tensor-no-permute", "VIOLATION", [(UT, "seq_rc = torch.flip(seq, dims=(-1,))[idxs]", "seq_rc = torch.flip(seq, dims=(-1,))")], "RC")
+case("C15", "chunk-count-mismatch", "VIOLATION", [(UT, "lengths = (lengths - size) // (size - overlap) + 1", "lengths = lengths // (size - overlap)")], "CHUNKS")
+case("C15", "characters-no-N", "VIOLATION", [(UT, "\t\tdna_chars[n_inds] = 'N'\n", "")], "DECODE")
